@@ -40,6 +40,15 @@ var c07Kinds = []c07Kind{
 	{name: "filter-own-error-in-tag", src: "{% assign q = 1 | failing %}", wraps: "sentinel"},
 	{name: "filter-own-error-in-if", src: "{% if 1 | failing %}", tail: "{% endif %}", wraps: "sentinel"},
 	{name: "division-by-zero", src: "{{ 1 | divided_by: 0 }}", wraps: "cause"},
+	// the failing condition is that of a LATER clause (reached because the earlier ones do not hold), on the opening tag's line
+	{name: "filter-own-error-in-elsif", src: "{% if false %}a{% elsif 1 | failing %}", tail: "b{% endif %}", wraps: "sentinel"},
+	{name: "filter-own-error-in-second-elsif", src: "{% if nil %}a{% elsif false %}b{% elsif 1 | failing %}", tail: "c{% else %}d{% endif %}", wraps: "sentinel"},
+	{name: "type-error-in-elsif", src: `{% if false %}a{% elsif 1 | plus: "a" %}`, tail: "b{% endif %}", wraps: "cause"},
+	{name: "unknown-filter-in-elsif", src: "{% if false %}a{% elsif 1 | nosuchfilter %}", tail: "b{% endif %}"},
+	{name: "filter-own-error-in-unless", src: "{% unless 1 | failing %}", tail: "{% endunless %}", wraps: "sentinel"},
+	{name: "filter-own-error-in-case", src: "{% case 1 | failing %}{% when 1 %}", tail: "{% endcase %}", wraps: "sentinel"},
+	{name: "filter-own-error-in-for", src: "{% for i in 1 | failing %}", tail: "{% endfor %}", wraps: "sentinel"},
+	{name: "filter-own-error-in-capture-body", src: "{% capture c %}{{ 1 | failing }}", tail: "{% endcapture %}", wraps: "sentinel"},
 	// a filter whose own error IS a SourceError - of another template it rendered or parsed itself, with another
 	// path and line: the outer error still locates the outer object
 	{name: "filter-returns-render-source-error", src: "{{ 1 | nested_render_error }}", wraps: "cause"},
@@ -105,8 +114,12 @@ func c07Families(tier string) []explore.Family {
 			rx := radix{i}
 			nlInTags := rx.next(2) == 1
 			viaParseAndRender := rx.next(2) == 1
-			loc := c07Locs[rx.next(len(c07Locs))]
+			li := rx.next(len(c07Locs))
+			loc := c07Locs[li]
 			kind := c07Kinds[rx.next(K)]
+			if d >= 2 && li >= 6 {
+				return // the unusual path spellings are combined with nesting depth 0 and 1 only (cost)
+			}
 			forms := make([]c07Form, d)
 			for j := range forms {
 				forms[j] = c07Forms[rx.next(F)]
@@ -346,7 +359,7 @@ func init() {
 	explore.Register(&explore.Prop{
 		ID:    "C07",
 		Level: "exploration",
-		Rule: "27 kinds of failing construct (syntax error in object / tag arguments, unknown tag, unknown filter, filter's own error in object/assign/if, division by zero, type error, strict undefined variable, unterminated blocks, stray end/clause tags, include of a missing file / non-string, bad cycle) placed in the taken body of every nesting path of depth 0..2 (quick) / 0..3 (thorough) over 7 enclosing forms, " +
+		Rule: "35 kinds of failing construct (syntax error in object / tag arguments, unknown tag, unknown filter, filter's own error in object/assign/if, division by zero, type error, strict undefined variable, unterminated blocks, stray end/clause tags, include of a missing file / non-string, bad cycle) placed in the taken body of every nesting path of depth 0..2 (quick) / 0..3 (thorough) over 7 enclosing forms, " +
 			"with 0/1/2 newlines + filler independently before every opener and before the construct, with and without a newline inside every opener tag, parsed with path in {none, dir/t.html} x start line in {0,1,7}, through ParseTemplateLocation+Render and ParseAndRender; scaled: 9 kinds after 9..5000 newlines (in text, inside tags, between openers) and inside 0..40 nested blocks; " +
 			"class = (kind, fails at parse time); distinct_nontrivial counts distinct classes",
 		Assumptions: []string{
